@@ -31,7 +31,7 @@ class World:
     """kinds: dict test name -> kind; tests named <layer letter lower><i>;
     'u*' tests have no layer (unit tests)."""
 
-    def __init__(self, kinds, b_on_a=False, su=None, td=None, imp=False, noise=False, order=None, hooks='st', levels=None, nest=False):
+    def __init__(self, kinds, b_on_a=False, su=None, td=None, imp=False, noise=False, order=None, hooks='st', levels=None, nest=False, strnames=None):
         self.kinds = dict(kinds)
         self.su = su or {}
         self.td = td or {}
@@ -53,7 +53,10 @@ class World:
         names = order or sorted(kinds)
         for n in names:
             ly = self.layers.get(n[0].upper())
-            self.tests.append(W.mk_test(n, kinds[n], layer=ly, out=out, level=(levels or {}).get(n)))
+            t = W.mk_test(n, kinds[n], layer=ly, out=out, level=(levels or {}).get(n))
+            if strnames and n in strnames:          # what str(test) shows (e.g. an id spanning several lines)
+                type(t).__str__ = (lambda text: (lambda self: text))(strnames[n])
+            self.tests.append(t)
         self.names = names
         self.nest = nest
 
@@ -109,7 +112,7 @@ _RAN = re.compile(r'Ran (\d+) tests with (\d+) failures, (\d+) errors and (\d+) 
 _TOTAL = re.compile(r'Total: (\d+) tests, (\d+) failures, (\d+) errors and (\d+) skipped')
 
 
-def parse_text(text):
+def parse_text(text, cont=()):
     """Parent's printed report -> dict(layers=[(name, n, f, e, s)], total=(n,f,e,s)|None, fail_names, err_names)"""
     layers = []
     cur = None
@@ -138,6 +141,8 @@ def parse_text(text):
             sect = err_names
             continue
         if sect is not None:
+            if any(ln.startswith(c) for c in cont):                 # second line of a test whose str() spans lines (printed verbatim in-process)
+                continue
             if ln.startswith('   '):
                 sect.append(ln.strip())
             else:
